@@ -845,6 +845,18 @@ pub fn candidates(spec: &Spec, k: usize, r: &mut Rng, random_extra: usize) -> Ve
                     out.push(Candidate { content: render(spec, k, &over, &default_counts), component: comp_label.clone(), class: format!("class={cname}@{pname}") });
                 }
             }
+            // a BIC has two shapes: the classes again on the 11-character form, in the bank, country,
+            // location and branch part
+            if c.name == "bic" && c.max >= 11 {
+                let base11 = sample(c, 11, k + ci);
+                for (pname, pidx) in [("bank", 1usize), ("country", 4), ("location", 7), ("branch-first", 8), ("branch-last", 10)] {
+                    for (cname, ch) in CLASS_CHARS {
+                        let v: String = base11.chars().enumerate().map(|(i, x)| if i == pidx { *ch } else { x }).collect();
+                        let over = |l2: usize, c2: usize, rep: usize| if l2 == li && c2 == ci && rep == 0 { Some(format!("{}{}", c.lit, v)) } else { None };
+                        out.push(Candidate { content: render(spec, k, &over, &default_counts), component: comp_label.clone(), class: format!("class={cname}@{pname}") });
+                    }
+                }
+            }
             // separator missing / doubled
             if !c.lit.is_empty() {
                 let v = sample(c, typical_len(c), k + ci);
